@@ -256,3 +256,70 @@ impl Val for (String, Option<String>) {
     }
     storage!((String, Option<String>));
 }
+
+impl Val for Option<Vec<u8>> {
+    const NAME: &'static str = "Option<Vec<u8>>";
+    fn make(key: u8, variant: u8, payload: usize) -> Self {
+        Some(bytes_with(key, variant, payload))
+    }
+    fn ident(&self) -> (u8, u8) {
+        let v = self.as_ref().unwrap();
+        (v[0], v[1])
+    }
+    fn footprint(&self) -> usize {
+        size_of::<Option<Vec<u8>>>() + self.as_ref().map_or(0, |v| v.capacity())
+    }
+    storage!(Option<Vec<u8>>);
+}
+
+impl Val for Vec<Option<String>> {
+    const NAME: &'static str = "Vec<Option<String>>";
+    fn make(key: u8, variant: u8, payload: usize) -> Self {
+        let outer = 3 * size_of::<Option<String>>();
+        let rest = payload.saturating_sub(outer).max(8);
+        let mut v = Vec::with_capacity(3);
+        v.push(Some(string_with(key, variant, rest)));
+        v.push(None);
+        v
+    }
+    fn ident(&self) -> (u8, u8) {
+        untag(self[0].as_ref().unwrap())
+    }
+    fn footprint(&self) -> usize {
+        size_of::<Vec<Option<String>>>() + self.capacity() * size_of::<Option<String>>() + self.iter().map(|s| s.as_ref().map_or(0, |x| x.capacity())).sum::<usize>()
+    }
+    storage!(Vec<Option<String>>);
+}
+
+impl Val for (String, String, String) {
+    const NAME: &'static str = "(String,String,String)";
+    fn make(key: u8, variant: u8, payload: usize) -> Self {
+        let a = payload / 4;
+        (string_with(key, variant, a.max(4)), string_with(key, variant, (payload / 2).max(4)), string_with(key, variant, payload.saturating_sub(a + payload / 2).max(4)))
+    }
+    fn ident(&self) -> (u8, u8) {
+        untag(&self.0)
+    }
+    fn footprint(&self) -> usize {
+        size_of::<(String, String, String)>() + self.0.capacity() + self.1.capacity() + self.2.capacity()
+    }
+    storage!((String, String, String));
+}
+
+impl Val for Vec<(String, u8)> {
+    const NAME: &'static str = "Vec<(String,u8)>";
+    fn make(key: u8, variant: u8, payload: usize) -> Self {
+        let outer = 2 * size_of::<(String, u8)>();
+        let rest = payload.saturating_sub(outer).max(8);
+        let mut v = Vec::with_capacity(2);
+        v.push((string_with(key, variant, rest), variant));
+        v
+    }
+    fn ident(&self) -> (u8, u8) {
+        untag(&self[0].0)
+    }
+    fn footprint(&self) -> usize {
+        size_of::<Vec<(String, u8)>>() + self.capacity() * size_of::<(String, u8)>() + self.iter().map(|x| x.0.capacity()).sum::<usize>()
+    }
+    storage!(Vec<(String, u8)>);
+}
